@@ -21,7 +21,9 @@ RULE = ("dedicated command trees of depth <= 3 (every level: flags/options that 
         "scan that gives up (no verdict) outside the class where it is unambiguous.  A case is non-trivial when the "
         "reported chain has at least one subcommand or a global argument has an entry; distinct = distinct case text.")
 TRUSTED = [
-    "Coq 8.16.1 kernel (coqc); no native_compute; theorems C09_* are 'Closed under the global context'",
+    "Coq 8.16.1 kernel (coqc); no native_compute; theorems C09_* are 'Closed under the global context' "
+    "(ParseProofs/Chain.v imports lemmas of C07 Actions/ActionsLoop, C08 Spelling and C11 Reentrancy/ReentrancyProofs; "
+    "none of the axiom-dependent C11 theorems is used)",
     "extraction: ExtrOcamlBasic only, no Extract Constant; OCaml driver ocaml/c09_driver.ml + common_parse/{spec,show}.ml "
     "(prints `?` for ids a level does not define, as the harness does for entries the debug accessors refuse)",
     "correspondence: vp/props/c09.py + vp/gen_cmd.py generators, harness/src/modes/parse.rs, comparison of chain + "
@@ -36,27 +38,43 @@ ASSUMPTIONS = [
     "follow are the recorded finding C09-flag-cluster-prefix",
     "hereditary build: C09_defs_copied_deep assumes the subcommands on the path were not built before "
     "(Built flag clear), as for a freshly constructed Command",
+    "whole-argv theorems (C09_chain, C09_chain_short_flags, C09_level_*, C09_chain_globals) quantify over the classes "
+    "line/gline of ParseProofs/Chain.v: option prefixes made of `--flag`, `--opt=v`, `--opt v`, `-ov`, `-o v` (exact "
+    "keys, one value, no require_equals, no hyphen-value positionals for the short forms) and flag clusters `-abc`; no token or option value that the level reads as a subcommand; "
+    "selecting tokens = name/alias (infer_subcommands off), `--sub` (infer_long_args off), `-S` alone, or the first "
+    "letter of a cluster in a level not itself entered through a cluster; selected children canonical (first with "
+    "their name, name resolves to them); levels with ignore_errors and args_conflicts_with_subcommands off; an "
+    "external subcommand only in a command without positionals",
+    "C09_chain_globals: that some level holds an entry for the global is a hypothesis (defaults: C06)",
 ]
 TECHNIQUE = ("Coq proof (closed form of ArgMatcher::fill_in_global_values for chains of any depth; "
-             "_propagate_global_args/_build_subcommand copy global definitions to every depth; the subcommand recorded "
-             "by Parser::parse is the canonical name of what possible_subcommand / flag-subcommand lookup selected and "
-             "the child is parsed with its own definition and a fresh matcher; external subcommand arguments verbatim) "
-             "+ extracted-model/implementation correspondence + direct python oracle")
+             "_propagate_global_args/_build_subcommand copy global definitions to every depth; the token loop of "
+             "Parser::parse never touches the recorded subcommand; option prefixes (`--flag`, `--opt=v`, `--opt v`, `-ov`, `-o v`, `-abc`) "
+             "are consumed item by item and the loop reaches the subcommand token in state ValuesDone; by induction on the "
+             "nesting a successful parse of `pre_0 n_1 pre_1 ... n_k pre_k` reports exactly the canonical names selected "
+             "(name, alias, long flag, short flag alone, first letter of a cluster; external subcommand last with its "
+             "arguments verbatim), each level computed from its own prefix and definition; the chain composed with the "
+             "globals merge) + extracted-model/implementation correspondence + direct python oracle")
 LEVEL_TEXT = ("Machine-checked theorems (Coq 8.16, closed under the global context) about the executable model of "
-              "Parser::{parse, possible_subcommand, possible_long_flag_subcommand, parse_short_arg, get_matches_with}, "
-              "Command::{_propagate_global_args, _build_self, _build_subcommand, get_used_global_args, find_subcommand} "
-              "and ArgMatcher::{propagate_globals, fill_in_global_values}: see evidence/C09.json for the theorem list "
-              "discharged on this run.  The model is tied to clap_builder by running the extracted model and the real "
+              "Parser::{parse, possible_subcommand, possible_long_flag_subcommand, parse_long_arg, parse_short_arg, "
+              "get_matches_with}, Command::{_propagate_global_args, _build_self, _build_subcommand, get_used_global_args, "
+              "find_subcommand} and ArgMatcher::{propagate_globals, fill_in_global_values}: see evidence/C09.json for the "
+              "theorem list discharged on this run.  Whole-argv statements (C09_chain, C09_chain_short_flags, "
+              "C09_level_isolation, C09_level_entries, C09_chain_globals) hold for trees and lines of any depth in the "
+              "inductively defined classes line/gline (option prefixes of long/short flags and options and flag clusters, levels "
+              "that do not ignore errors).  The model is tied to clap_builder by running the extracted model and the real "
               "crate (debug build) on the same generated command trees (depth <= 3) and argument vectors on every check; "
               "the direct oracle recomputes the expected chain and the explicit occurrences from the case line and "
               "checks chain, external arguments, per-level attribution and the agreement of every global across levels "
               "on the implementation's output alone.")
-LEVEL_NOTE = ("Trusted: Coq kernel, extraction, OCaml driver, Rust harness, generators, the python scan. The closed "
-              "statement 'reported chain = chain named on the command line' is proved per naming form for one step "
-              "(name/alias, long flag, short flag alone, first letter of a cluster, external) and structurally for the "
-              "recursion; the composition over whole argument vectors for arbitrary option syntax is covered by the "
-              "correspondence and the oracle. Recorded finding: a cluster in which parent short flags precede a short "
-              "flag-subcommand letter and further letters follow (`-vSy`) is rejected with UnknownArgument.")
+LEVEL_NOTE = ("Trusted: Coq kernel, extraction, OCaml driver, Rust harness, generators, the python scan. Proved for all "
+              "inputs of the classes line/gline (ParseProofs/Chain.v): reported chain = chain named on the command line, "
+              "external arguments verbatim, level isolation (equation and entries), globals merged at every level with "
+              "explicit beating default. Outside the classes (positionals before a subcommand, `-o=v`, options inside clusters, "
+              "multi-value / require_equals / hyphen-value options, inference, ignore_errors, args_conflicts_with_subcommands) "
+              "the whole-argv statement is covered by the correspondence and the oracle. Recorded findings: `-vSy` "
+              "(parent flags before a short flag-subcommand letter with further letters) and a stale flag_subcmd_at "
+              "after a continued cluster; both are outside gline by construction.")
 
 
 # =============================================================================== dedicated trees
